@@ -158,10 +158,83 @@ def body_after_traffic(rep, case):
     body_tables(rep, case)
 
 
+def body_dial(rep, case):
+    """Several API objects of both protocol types are constructed first (in the generated order) and connected
+    afterwards (in another order): each must reach the fake device on the control port of its own type.  With only the
+    other type's port open, connect must fail instead of ending up on the wrong port."""
+    from ..fake import env, net, ops, tcpdev
+
+    async def run():
+        dev = await env.device()
+        await dev.kill_connections()
+        apis = [(t, ops.make_api(t, dev.ip, f"{i + 1:06x}", "18")) for i, t in enumerate(case["types"])]
+        seen = []
+        try:
+            for idx in case["connect_order"]:
+                t, api = apis[idx % len(apis)]
+                if getattr(api, "connected", False):
+                    continue
+                n0 = len(dev.conns)
+                await api.connect()
+                for _ in range(5000):
+                    if len(dev.conns) > n0:
+                        break
+                    await asyncio.sleep(0)
+                port = dev.conns[-1].port if len(dev.conns) > n0 else None
+                seen.append((t, port))
+        finally:
+            for _, api in apis:
+                try:
+                    await api.disconnect()
+                except Exception:
+                    pass
+        # only the other type's port is open: the connection must be refused
+        refused = []
+        for t in (1, 2):
+            own = tcpdev.PORT1 if t == 1 else tcpdev.PORT2
+            await dev.unlisten(own)
+            api = ops.make_api(t, dev.ip, "0a0b0c", "18")
+            n0 = len(dev.conns)
+            try:
+                try:
+                    await asyncio.wait_for(api.connect(), 10)
+                    await asyncio.sleep(0)
+                    refused.append((t, "connected", dev.conns[-1].port if len(dev.conns) > n0 else None))
+                except OSError:
+                    refused.append((t, "OSError", None))
+                except Exception as exc:  # noqa
+                    refused.append((t, type(exc).__name__, None))
+            finally:
+                try:
+                    await api.disconnect()
+                except Exception:
+                    pass
+                await dev.listen(own)
+        return seen, refused
+
+    import asyncio
+    seen, refused = net.run(run(), timeout=120)
+    rep.tick("api-dials-own-port", key=case, nontrivial=len(set(case["types"])) > 1, sample=case)
+    want = {1: 9957, 2: 10000}
+    for t, port in seen:
+        if port != want[t]:
+            raise Violation(f"C19/api-type{t}-dials-port-{port}", case, want[t], {"type": t, "port": port, "all": seen})
+    for t, outcome, port in refused:
+        if outcome != "OSError":
+            raise Violation(f"C19/api-type{t}-falls-back-to-other-port", case, "OSError (own control port closed)",
+                            {"type": t, "outcome": outcome, "port": port})
+
+
+def strat_dial():
+    return st.builds(lambda types, order: {"types": types, "connect_order": order},
+                     st.lists(st.sampled_from([1, 2]), min_size=1, max_size=5), st.lists(st.integers(0, 4), min_size=1, max_size=6))
+
+
 def subchecks(tier):
     n = 500 if tier == "thorough" else 50
     subs = [Sub("tables", body_tables, cases=lambda: [{}], shards=1, exhaustive=True),
             Sub("tables-after-traffic", body_after_traffic, cases=lambda: [{"seed": i} for i in range(3)], shards=1, exhaustive=True)]
+    subs.append(Sub("api-dials-own-port", body_dial, strategy=strat_dial, n=3000 if tier == "thorough" else 120, shards=1))
     names = sorted(set(type_names()) | {v[0] for v in refb.MODELS.values()})
     for t in names:
         for c in CLASS_CATEGORY:
